@@ -362,6 +362,13 @@ impl RadixSort {
             return Ok(());
         }
 
+        // Bound the recursion depth (one 257-bucket frame per common prefix byte otherwise):
+        // every string in this bucket is at least `depth` bytes long and agrees on the first `depth` bytes.
+        if depth >= 256 {
+            data.sort_unstable_by(|a, b| a[depth..].cmp(&b[depth..]));
+            return Ok(());
+        }
+
         // Most Significant Digit radix sort for byte strings
         let mut buckets: Vec<Vec<Vec<u8>>> = vec![Vec::new(); 257]; // 256 bytes + end marker
 
